@@ -74,6 +74,23 @@ def inverse_table(ctx, se, grid_ok):
     return out
 
 
+def _digits_within_array(ctx, hi):
+    """pin_to_bytes returns a sub-slice (`&mut out[a..b]`) of its `&mut [u8; hi]` parameter:
+    whatever a and b are, the slice is not longer than hi"""
+    pse = ctx.wrap.run("pin::pin_to_bytes")
+    if pse is None or pse.body.arg_count != 2:
+        return False
+    t2 = pse.body.local_ty(2)
+    if not (t2 is not None and t2.k == "ref" and t2.to is not None and t2.to.k == "array" and t2.to.len == hi):
+        return False
+    r = strip(pse.ret)
+    if not (util.is_call(r) and (r[1].endswith("::index_mut") or r[1].endswith("::index")) and len(r[2]) == 2):
+        return False
+    # the place that is indexed: the parameter's pointee itself
+    la = (pse.term_info.get(r[3][1], {}).get("locargs") or (("?",),))[0]
+    return la[0] == "ref" and la[1] == ("deref", ("param", 2))
+
+
 def lookup_rule(ctx, rep, se):
     """the loops over the digit slice: per element, `*b = position of *b in remap_pin_grid(seed)`
     and `*b += 0x30`, fused or in two passes (in that order), nothing else"""
@@ -406,6 +423,15 @@ def check(ctx, rep):
         rep.check(bool(nones) and all(bi in r_out and bi not in r_in for bi, _ in nones) and somes[0][0] not in cfg.reachable(body, cut_edges=[(sw, in_t)]), "gate", HF, "none-out-of-range", "out-of-range lengths lead to None", "out-of-range edges do not lead to None", body.loc())
     elif not lt and not gt and _integer_gate(ctx, rep, se, HF, lo, hi, somes, nones):
         pass
+    elif lt and not gt and _digits_within_array(ctx, hi):
+        # only the lower test is written: the digit slice is a part of the `[u8; 10]` array it
+        # was written into, so `len <= 10` holds by the type and needs no test
+        hash_blocks = [bi for bi, t in body.calls() if (t.get("callee") or "").endswith("Digest::new")] + [somes[0][0]]
+        bad = [bi for bi in hash_blocks if not cfg.must_pass_edge(body, (lt[0], lt[2]), bi)]
+        rep.check(not bad, "gate", HF, "hash-only-in-range", "hashing only behind len >= 4 (len <= 10 by the type of the digit buffer)", "hashing reachable without passing the length test (bb%s)" % bad, body.loc())
+        r1 = cfg.reachable(body, start=lt[1])
+        rin = cfg.reachable(body, start=lt[2])
+        rep.check(bool(nones) and all(bi in r1 and bi not in rin for bi, _ in nones) and somes[0][0] not in cfg.reachable(body, cut_edges=[(lt[0], lt[2])]), "gate", HF, "none-out-of-range", "too short leads to None; longer than 10 cannot occur", "out-of-range edges do not lead to None", body.loc())
     elif not lt or not gt:
         rep.violation("gate", HF, "length-tests", "length tests `len < 4` / `len > 10` on the digit slice not found", body.loc())
     else:
